@@ -26,6 +26,9 @@ func runC09(c *Ctx) {
 	c09R3(c)
 	indexResolution(c, "R4")
 	memberResolutionOrder(c, "R8")
+	if es := c.P.LangFunc("(*Evaluator).evalStatement"); es != nil {
+		c.shared("R9", "C07/R7", "the loop variable of for-in receives a copy of the element's value in a cell of its own: assigning to it (or reusing its name later) does not change the array", keyHas("for-in ValueArray", "for-in ValueObj"), func(s *Ctx) { c07ForIn(s, es) })
+	}
 	c.shared("R7", "C15/R3", "sort is not a mutating method: it works on a clone whose cells are fresh copies, so neither the order nor the cells of the receiver change", keyHas("sort-clone", "sort-subject", "array.sort effects"), func(s *Ctx) { c15R3(s, nativeMethods(s.P)) })
 	if eu := c.P.LangFunc("(*Evaluator).evalUnaryExpr"); eu != nil {
 		c.note("R5 incdec-table: ++ stores old+1 and -- old-1 into the operand's cell through evalAssignment; postfix yields the old number, prefix the updated value; the assignment's error is propagated (C11/R1).")
